@@ -26,7 +26,7 @@ m("c02_factor_ok_on_mismatch", C, "            if lhs != rhs {\n                
 m("c02_add_keeps_rhs_unit", E, "            let unit = if a.unit.is_empty() { b.unit } else { a.unit };\n            Ok(Numeric::new(a.value + b.value, unit))", "            let unit = if b.unit.is_empty() { a.unit } else { b.unit };\n            Ok(Numeric::new(a.value + b.value, unit))", "C02 C13")
 m("c02_plain_number_loses_unit_on_sub", E, "            let unit = if a.unit.is_empty() { b.unit } else { a.unit };\n            Ok(Numeric::new(a.value - b.value, unit))", "            Ok(Numeric::new(a.value - b.value, a.unit))", "C02")
 m("c02_powers_keep_zero", "src/powers.rs", "                if *e.get() == 0 {\n                    e.remove();\n                }", "", "C02 C04")
-m("c02_illegal_cast_is_ok", E, "                            Ok(false) => {\n                                return Err(Error::new(\n                                    *node.span(),\n                                    IllegalCast {", "                            Ok(false) if lhs.unit.is_empty() => {\n                                return Err(Error::new(\n                                    *node.span(),\n                                    IllegalCast {", "C02")
+m("c02_illegal_cast_is_ok", E, "                        match rhs.factor(&lhs.unit, &mut lhs.value) {\n                            Ok(true) => {}", "                        match rhs.factor(&lhs.unit, &mut lhs.value) {\n                            Ok(_) => {}", "C02")
 # ---- C03
 m("c03_prefix_plus_power", C, "            *value *= Rational::new(10u32, 1u32).pow(state.prefix * state.power);\n\n            if let Some(conversion) = name.conversion() {\n                let alone = other.names.len() == 1", "            *value *= Rational::new(10u32, 1u32).pow(state.prefix + state.power - 1);\n\n            if let Some(conversion) = name.conversion() {\n                let alone = other.names.len() == 1", "C03 C02")
 m("c03_factor_pow_dropped", C, "                *ratio *= Rational::new(fraction.numer, fraction.denom).pow(pow);", "                *ratio *= Rational::new(fraction.numer, fraction.denom).pow(pow.signum());", "C03 C04")
